@@ -176,6 +176,9 @@ func checkC02(c *Ctx) {
 			c.borrowKinds("C01", func() { c.c01Sibling(fo) }, "R02.3", sib+".Get:key-lock-table", []string{"R01.2", "R01.5"}, "insert-key", "lookup-key", "release-key")
 			// what a waiter reads after the release is the entry it waited on: entries are fresh per election, never recycled
 			c.borrowKinds("C01", func() { c.c01Sibling(fo) }, "R02.2", sib+".Get:key-lock-entry", []string{"R01.2"}, "insert-not-fresh-entry")
+			// the publication is judged where the owner releases the key lock: exactly once, at the end of the owner's own path (main or
+			// background) — a release handed to a timer or another goroutine can fire while val/err are still unset (C01 R01.4)
+			c.borrowKinds("C01", func() { c.c01Sibling(fo) }, "R02.2", sib+".Get:release-at-end-of-owner-path", []string{"R01.4"}, "missing-release", "double-release")
 		}
 	}
 	// R02.5 also for restored entries: every decoded record gets storage of its own (a re-used decode target leaves fields of the
@@ -372,6 +375,12 @@ func (c *Ctx) c02Sibling(fo *FO) {
 			if perr != nil {
 				if isNil, known := fp.NilFact(perr); known && !isNil {
 					tags["published:error"]++
+					// what waiters receive has provenance as well: an error the owner invents at release (a "build aborted" marker for
+					// a builder that legitimately returned (nil, nil)) is an error nobody produced
+					if pe := fo.errProv(fp, evs, cl, perr, 0); !pe.ok {
+						d, t := c.pathDetail(fo, p, fmt.Sprintf("owner releases the key lock %s with a published error of unknown origin (%s): waiting Gets receive an error that neither backend, builder nor failure cache produced", where, pe.why))
+						r.Bad("R02.2", cons, "fabricated-publication-error-"+where, c.Pos(relPos.Pos), d, t)
+					}
 					return
 				} else if !known {
 					// error of unknown nil-ness: value must be legit or the error decides; accept when the value is legit
